@@ -65,6 +65,10 @@ def run(c: Check):
         "a watcher thread's lock / wait / delete sequence is one step of the model, and the create window of a token file "
         "is not interrupted by a kill of its creator",
         "all schedulers configure the same total; requests are non-negative",
+        "the scheduler is not killed between starting the job process and the completed write of its pid file; "
+        "TokenFile.delete is atomic; filesystem events are never lost or duplicated",
+        "the capacity theorems are about the watcher thread that tests and deletes under the job lock (fixes/C08-1); the "
+        "pinned thread is refuted (C08_stale_watcher_refuted) and reported as C08:stale-watcher-deletes-live-token-file",
         "the in-process scheduler itself (aio_start around the token) is modelled by C06's Sched.v, not here: this model "
         "takes 'a job is started only when its dependency status is OK' from it",
     ]
